@@ -28,14 +28,14 @@ type Ctx struct {
 	Known    []string // KNOWN-FINDING lines printed
 
 	// evidence
-	Level     string
-	Cov       map[string]any
-	Assume    []string
-	mcStates  int64
-	mcTrans   int64
-	mcRuns    []map[string]any
-	traces    int
-	samples   []any
+	Level    string
+	Cov      map[string]any
+	Assume   []string
+	mcStates int64
+	mcTrans  int64
+	mcRuns   []map[string]any
+	traces   int
+	samples  []any
 }
 
 func NewCtx(id, tier string) *Ctx {
